@@ -349,6 +349,10 @@ func cast(v interface{}, t string) (interface{}, error) {
 	case float64:
 		switch t {
 		case "int":
+			// (a float beyond the int64 range, or NaN, has no int to be cast to: that record fails)
+			if x != x || x >= 9223372036854775808.0 || x < -9223372036854775808.0 {
+				return nil, errors.New("value out of range")
+			}
 			return int64(x), nil
 		case "float":
 			return x, nil
